@@ -12,20 +12,31 @@ Scopes derived from a closed scope are inert, closing twice is harmless, and non
 deadlock."
 
 The model (`Tally.Registry`) is one shard of the repaired registry with any number of threads and any
-interleaving of their atomic steps.  All theorems quantify over EVERY event list accepted by the model,
-from either start state (`initRoot`: the shard as `newScopeRegistry` leaves it; `init`: the empty shard).
+interleaving of their atomic steps, parameterised by the sanitizer on keys `san` (a scope is registered under
+its identity = the sanitized key, and under the raw spellings callers used, as aliases).  All theorems hold for
+EVERY idempotent `san` (`hsan`) and quantify over EVERY event list accepted by the model, from either start state
+(`initRoot san`: the shard as `newScopeRegistry` leaves it; `init`: the empty shard).
 The invariant and its preservation are in `TallyProofs/Lemmas/RegistryLemmas.lean`.
 -/
 namespace Tally.Props.C07
 open Tally Tally.Registry
 
-/-- the two start states -/
-def Start (s0 : State) : Prop := s0 = initRoot ∨ s0 = init
+variable {san : Nat → Nat}
 
-theorem inv_reach {s0 s : State} {es : List Ev} (h0 : Start s0) (hr : run s0 es = some s) : Inv s := by
+/-- the two start states (for the sanitizer `san`) -/
+def Start (san : Nat → Nat) (s0 : State) : Prop := s0 = initRoot san ∨ s0 = init
+
+theorem inv_reach {s0 s : State} {es : List Ev} (hsan : ∀ k, san (san k) = san k) (h0 : Start san s0)
+    (hr : run san s0 es = some s) : Inv san s := by
   rcases h0 with rfl | rfl
-  · exact inv_run inv_initRoot hr
-  · exact inv_run inv_init hr
+  · exact inv_run (inv_initRoot hsan) hr
+  · exact inv_run (inv_init hsan) hr
+
+theorem doneOk_reach {s0 s : State} {es : List Ev} (hsan : ∀ k, san (san k) = san k) (h0 : Start san s0)
+    (hr : run san s0 es = some s) : DoneOk san s := by
+  rcases h0 with rfl | rfl
+  · exact doneOk_run (inv_initRoot hsan) (doneOk_of_no_pcs rfl) hr
+  · exact doneOk_run (inv_init hsan) (doneOk_of_no_pcs rfl) hr
 
 /-! ## T1 — every token ever issued is in exactly one place -/
 
@@ -33,11 +44,12 @@ theorem inv_reach {s0 s : State} {es : List Ev} (h0 : Start s0) (hr : run s0 es 
 by a visiting thread, or dropped have pairwise distinct ids, all below `nextToken`, and there are exactly
 `nextToken` of them: every token ever issued is in exactly one place — nothing is delivered twice,
 nothing vanishes. -/
-theorem token_conservation {s0 s : State} {es : List Ev} (h0 : Start s0) (hr : run s0 es = some s) :
+theorem token_conservation {s0 s : State} {es : List Ev} (hsan : ∀ k, san (san k) = san k) (h0 : Start san s0)
+    (hr : run san s0 es = some s) :
     ((s.delivered ++ allCells s ++ allPending s ++ s.dropped).map (·.id)).Nodup
     ∧ (∀ tok ∈ s.delivered ++ allCells s ++ allPending s ++ s.dropped, tok.id < s.nextToken)
     ∧ (s.delivered ++ allCells s ++ allPending s ++ s.dropped).length = s.nextToken := by
-  have hp := (inv_reach h0 hr).ids_perm
+  have hp := (inv_reach hsan h0 hr).ids_perm
   refine ⟨hp.nodup_iff.mpr List.nodup_range, ?_, ?_⟩
   · intro tok hm
     have : tok.id ∈ (allTokens s).map (·.id) := List.mem_map_of_mem hm
@@ -48,34 +60,37 @@ theorem token_conservation {s0 s : State} {es : List Ev} (h0 : Start s0) (hr : r
 
 /-- a token, once issued, stays one of the accounted tokens for ever (as the very same token: same
 scope, same `pre` stamp) -/
-theorem token_never_vanishes {s0 s s' : State} {es es' : List Ev} (h0 : Start s0) (hr : run s0 es = some s)
-    (hr' : run s es' = some s') :
+theorem token_never_vanishes {s0 s s' : State} {es es' : List Ev} (hsan : ∀ k, san (san k) = san k) (h0 : Start san s0)
+    (hr : run san s0 es = some s)
+    (hr' : run san s es' = some s') :
     ∀ tok ∈ s.delivered ++ allCells s ++ allPending s ++ s.dropped,
       tok ∈ s'.delivered ++ allCells s' ++ allPending s' ++ s'.dropped :=
-  fun _ hm => mem_allTokens_run (inv_reach h0 hr) hr' hm
+  fun _ hm => mem_allTokens_run (inv_reach hsan h0 hr) hr' hm
 
 /-! ## T2 — what was recorded before Close is never cleared away -/
 
 /-- **no `pre` token is ever dropped**: a token recorded before its scope's Close never ends up among the
 tokens that can no longer be delivered. -/
-theorem no_pre_token_dropped {s0 s : State} {es : List Ev} (h0 : Start s0) (hr : run s0 es = some s) :
+theorem no_pre_token_dropped {s0 s : State} {es : List Ev} (hsan : ∀ k, san (san k) = san k) (h0 : Start san s0)
+    (hr : run san s0 es = some s) :
     ∀ tok ∈ s.dropped, tok.pre = false :=
-  (inv_reach h0 hr).static.droppedNoPre
+  (inv_reach hsan h0 hr).static.droppedNoPre
 
 /-! ## T3 — the final report -/
 
 /-- **final report**: once scope `sid` has been cleared and no thread still holds a pending delta of it,
 every token ever recorded on `sid` before its Close is in `delivered` — and exactly once. -/
-theorem closed_scope_final_report {s0 s : State} {es : List Ev} (h0 : Start s0) (hr : run s0 es = some s)
+theorem closed_scope_final_report {s0 s : State} {es : List Ev} (hsan : ∀ k, san (san k) = san k) (h0 : Start san s0)
+    (hr : run san s0 es = some s)
     (sid : Nat) (x : ScopeS) (hx : scopeOf s sid = some x) (hcl : x.cleared = true)
     (hp : ∀ tok ∈ allPending s, tok.scope ≠ sid) :
     ∀ tok ∈ s.delivered ++ allCells s ++ allPending s ++ s.dropped,
       tok.scope = sid → tok.pre = true → tok ∈ s.delivered ∧ (s.delivered.map (·.id)).count tok.id = 1 := by
-  have h := inv_reach h0 hr
+  have h := inv_reach hsan h0 hr
   intro tok hm hsc hpre
   have hmd : tok ∈ s.delivered := h.final_report hx hcl hp hm hsc hpre
   refine ⟨hmd, ?_⟩
-  have hnd := (token_conservation h0 hr).1
+  have hnd := (token_conservation hsan h0 hr).1
   have h1 : 1 ≤ (s.delivered.map (·.id)).count tok.id :=
     List.one_le_count_iff.mpr (List.mem_map_of_mem hmd)
   have h2 := List.nodup_iff_count.mp hnd tok.id
@@ -83,108 +98,155 @@ theorem closed_scope_final_report {s0 s : State} {es : List Ev} (h0 : Start s0) 
   omega
 
 /-- the same with the simpler hypothesis "no visit in flight at all" -/
-theorem closed_scope_final_report' {s0 s : State} {es : List Ev} (h0 : Start s0) (hr : run s0 es = some s)
+theorem closed_scope_final_report' {s0 s : State} {es : List Ev} (hsan : ∀ k, san (san k) = san k) (h0 : Start san s0)
+    (hr : run san s0 es = some s)
     (sid : Nat) (x : ScopeS) (hx : scopeOf s sid = some x) (hcl : x.cleared = true)
     (hp : allPending s = []) :
     ∀ tok ∈ s.delivered ++ allCells s ++ allPending s ++ s.dropped,
       tok.scope = sid → tok.pre = true → tok ∈ s.delivered ∧ (s.delivered.map (·.id)).count tok.id = 1 :=
-  closed_scope_final_report h0 hr sid x hx hcl (by rw [hp]; intro _ hm; cases hm)
+  closed_scope_final_report hsan h0 hr sid x hx hcl (by rw [hp]; intro _ hm; cases hm)
 
 /-- a cleared scope is closed, and its cell is empty (what is recorded on it afterwards is `pre = false`
 and goes to `dropped`) -/
-theorem cleared_is_closed {s0 s : State} {es : List Ev} (h0 : Start s0) (hr : run s0 es = some s)
+theorem cleared_is_closed {s0 s : State} {es : List Ev} (hsan : ∀ k, san (san k) = san k) (h0 : Start san s0)
+    (hr : run san s0 es = some s)
     (sid : Nat) (x : ScopeS) (hx : scopeOf s sid = some x) (hcl : x.cleared = true) :
     x.closed = true ∧ x.cell = [] :=
-  (inv_reach h0 hr).static.clearedOk sid x hx hcl
+  (inv_reach hsan h0 hr).static.clearedOk sid x hx hcl
 
 /-- **only then is the scope dropped**: a thread that is past the swap of a visit of `sid` which it
 entered having read the closed flag as `true` (pcs `passDeliver`/`passAfter` with `closed = true`,
 `passUnlocked`, `passRelock`, `passClear`, `obtDeliver` … `obtClear` — the only threads that ever
 unregister or clear `sid`, besides the write-locked D4c step that reports and clears at once) sees a closed
 scope whose cell holds no `pre` token any more. -/
-theorem drop_only_after_final_visit {s0 s : State} {es : List Ev} (h0 : Start s0) (hr : run s0 es = some s)
+theorem drop_only_after_final_visit {s0 s : State} {es : List Ev} (hsan : ∀ k, san (san k) = san k) (h0 : Start san s0)
+    (hr : run san s0 es = some s)
     (t sid : Nat) (hsc : pcScope (pcOf s t) = some sid) (hc : pcClosed (pcOf s t) = true)
     (hw : pcSwapped (pcOf s t) = true) :
     ∃ x, scopeOf s sid = some x ∧ x.closed = true ∧ ∀ tok ∈ x.cell, tok.pre = false := by
-  obtain ⟨x, hx, h1⟩ := (inv_reach h0 hr).pcInv t sid hsc
+  obtain ⟨x, hx, h1⟩ := (inv_reach hsan h0 hr).pcInv t sid hsc
   exact ⟨x, hx, (h1 hc).1, (h1 hc).2 hw⟩
 
 /-! ## T4 — closing harms no other scope -/
 
-/-- **a live scope stays registered** under its identity, whatever other threads close, re-acquire or
-report -/
-theorem close_harms_no_other {s0 s : State} {es : List Ev} (h0 : Start s0) (hr : run s0 es = some s)
+/-- **a live scope stays registered** under its identity (the sanitized key), whatever other threads close,
+re-acquire or report -/
+theorem close_harms_no_other {s0 s : State} {es : List Ev} (hsan : ∀ k, san (san k) = san k) (h0 : Start san s0)
+    (hr : run san s0 es = some s)
     (sid : Nat) (x : ScopeS) (hx : scopeOf s sid = some x) (hlive : x.closed = false) :
     lookup s x.ident = some sid :=
-  (inv_reach h0 hr).static.liveReg sid x hx hlive
+  (inv_reach hsan h0 hr).static.liveReg sid x hx hlive
+
+/-- **every registry entry points to a scope of the sanitized key**: in every reachable state an entry
+`k ↦ sid` of the map refers to an existing scope whose identity is `san k` — the entry is either the identity key
+itself (`k = san k`) or a raw alias of it -/
+theorem alias_points_to_identity {s0 s : State} {es : List Ev} (hsan : ∀ k, san (san k) = san k) (h0 : Start san s0)
+    (hr : run san s0 es = some s) :
+    ∀ k sid, (k, sid) ∈ s.reg → ∃ x, scopeOf s sid = some x ∧ x.ident = san k :=
+  (inv_reach hsan h0 hr).static.regIdent
+
+/-- the same for the map as a function: what `lookup` returns for `k` is a scope of identity `san k`; and no key
+is registered twice -/
+theorem lookup_points_to_identity {s0 s : State} {es : List Ev} (hsan : ∀ k, san (san k) = san k) (h0 : Start san s0)
+    (hr : run san s0 es = some s) :
+    (∀ k sid, lookup s k = some sid → ∃ x, scopeOf s sid = some x ∧ x.ident = san k)
+    ∧ (s.reg.map (·.1)).Nodup :=
+  ⟨fun k sid hl => (inv_reach hsan h0 hr).static.regIdent k sid (mem_of_lookup hl),
+   (inv_reach hsan h0 hr).static.regNodup⟩
 
 /-- every result of `obtain` is a scope that exists and, as long as it is not closed, is the one the map
-holds for its identity -/
-theorem live_stays_registered {s0 s : State} {es : List Ev} (h0 : Start s0) (hr : run s0 es = some s) :
+holds for its identity (the sanitized key) -/
+theorem live_stays_registered {s0 s : State} {es : List Ev} (hsan : ∀ k, san (san k) = san k) (h0 : Start san s0)
+    (hr : run san s0 es = some s) :
     ∀ t sid, (t, sid) ∈ s.handedOut →
       ∃ x, scopeOf s sid = some x ∧ (x.closed = false → lookup s x.ident = some sid) := by
   intro t sid hm
-  have h := inv_reach h0 hr
+  have h := inv_reach hsan h0 hr
   have hlt := h.static.handed t sid hm
   refine ⟨s.scopes[sid], by simp [scopeOf, hlt], fun hl => ?_⟩
   exact h.static.liveReg sid _ (by simp [hlt]) hl
 
 /-- two live scopes of the same identity are the same scope -/
-theorem one_live_scope_per_identity {s0 s : State} {es : List Ev} (h0 : Start s0) (hr : run s0 es = some s)
+theorem one_live_scope_per_identity {s0 s : State} {es : List Ev} (hsan : ∀ k, san (san k) = san k) (h0 : Start san s0)
+    (hr : run san s0 es = some s)
     (a b : Nat) (x y : ScopeS) (hx : scopeOf s a = some x) (hy : scopeOf s b = some y)
     (hxl : x.closed = false) (hyl : y.closed = false) (hid : x.ident = y.ident) : a = b := by
-  have h1 := close_harms_no_other h0 hr a x hx hxl
-  have h2 := close_harms_no_other h0 hr b y hy hyl
+  have h1 := close_harms_no_other hsan h0 hr a x hx hxl
+  have h2 := close_harms_no_other hsan h0 hr b y hy hyl
   rw [hid, h2] at h1
   exact (Option.some.inj h1).symm
 
 /-- `Close` touches nothing but the closed flag of its own scope -/
-theorem close_touches_only_its_flag {s s' : State} {sid : Nat} (hs : step s (.close sid) = some s') :
+theorem close_touches_only_its_flag {s s' : State} {sid : Nat} (hs : step san s (.close sid) = some s') :
     ∃ x, scopeOf s sid = some x ∧ s' = setScope s sid { x with closed := true } := by
   simp only [step] at hs
   split at hs
   · cases hs
   · next x hx => exact ⟨x, hx, (Option.some.inj hs).symm⟩
 
-/-- **what obtain returns**: whenever a thread arrives at `obtDone i sid` (the return of `Subscope` for
-identity `i`), `sid` is a live scope of identity `i`, it is what the map holds for `i`, and it is recorded
-as handed out -/
-theorem obtain_returns_live_registered {s0 s s' : State} {es : List Ev} (h0 : Start s0) (hr : run s0 es = some s)
-    {e : Ev} {t i sid : Nat} (hs : step s e = some s')
+/-- **what obtain returns**: whenever a thread arrives at `obtDone r sid` (the return of `Subscope` called with
+the raw key `r`), `sid` is a live scope of identity `san r`, it is what the map holds for `san r`, and it is
+recorded as handed out -/
+theorem obtain_returns_live_registered {s0 s s' : State} {es : List Ev} (hsan : ∀ k, san (san k) = san k) (h0 : Start san s0)
+    (hr : run san s0 es = some s)
+    {e : Ev} {t i sid : Nat} (hs : step san s e = some s')
     (hbefore : pcOf s t ≠ .obtDone i sid) (hafter : pcOf s' t = .obtDone i sid) :
-    ∃ x, scopeOf s' sid = some x ∧ x.closed = false ∧ x.ident = i ∧ lookup s' i = some sid
+    ∃ x, scopeOf s' sid = some x ∧ x.closed = false ∧ x.ident = san i ∧ lookup s' (san i) = some sid
       ∧ s'.handedOut = (t, sid) :: s.handedOut := by
   rcases step_to_obtDone hs hafter with hh | ⟨c, rfl, hpc⟩
   · exact absurd hh hbefore
-  · exact obtain_returns (inv_reach h0 hr) hs hpc hafter
+  · exact obtain_returns (inv_reach hsan h0 hr) hs hpc hafter
+
+/-- **same identity, same live scope**: if two threads have returned from `Subscope` (`obtDone`) — called with
+any raw spellings `r1`, `r2` of the same identity (`san r1 = san r2`) — and the scopes they returned are both
+still live, they are the same scope -/
+theorem obtain_same_identity_same_live_scope {s0 s : State} {es : List Ev} (hsan : ∀ k, san (san k) = san k)
+    (h0 : Start san s0) (hr : run san s0 es = some s)
+    {t1 t2 r1 r2 sid1 sid2 : Nat} (hd1 : pcOf s t1 = .obtDone r1 sid1) (hd2 : pcOf s t2 = .obtDone r2 sid2)
+    (hsame : san r1 = san r2) {x1 x2 : ScopeS}
+    (hx1 : scopeOf s sid1 = some x1) (hl1 : x1.closed = false)
+    (hx2 : scopeOf s sid2 = some x2) (hl2 : x2.closed = false) : sid1 = sid2 := by
+  have hd := doneOk_reach hsan h0 hr
+  obtain ⟨y1, hy1, hi1⟩ := hd t1 r1 sid1 hd1
+  obtain ⟨y2, hy2, hi2⟩ := hd t2 r2 sid2 hd2
+  rw [hx1] at hy1; cases hy1
+  rw [hx2] at hy2; cases hy2
+  exact one_live_scope_per_identity hsan h0 hr sid1 sid2 x1 x2 hx1 hx2 hl1 hl2 (by rw [hi1, hi2, hsame])
+
+/-- a thread that has returned from `Subscope(r)` holds a scope of identity `san r` -/
+theorem returned_scope_has_sanitized_identity {s0 s : State} {es : List Ev} (hsan : ∀ k, san (san k) = san k)
+    (h0 : Start san s0) (hr : run san s0 es = some s) {t r sid : Nat} (hd : pcOf s t = .obtDone r sid) :
+    ∃ x, scopeOf s sid = some x ∧ x.ident = san r :=
+  doneOk_reach hsan h0 hr t r sid hd
 
 /-! ## T5 — a scope obtained after a Close for the same identity is fully functional -/
 
-/-- **the re-acquired scope is functional**: let an earlier scope `sid` of identity `i` be closed, and let
-`obtain` for `i` then return `sid'`.  Then `sid'` is another scope, and in every later state in which
-`sid'` is still live: it is what the map holds for `i` (T4); an increment on it succeeds, mints a `pre`
+/-- **the re-acquired scope is functional**: let an earlier scope `sid` of identity `san i` be closed, and let
+`obtain` for the raw key `i` then return `sid'`.  Then `sid'` is another scope, and in every later state in which
+`sid'` is still live: it is what the map holds for `san i` (T4); an increment on it succeeds, mints a `pre`
 token into its cell; and that token is accounted for ever after, is never dropped (T2), and is in
 `delivered` as soon as `sid'` has been cleared with no delta of it pending (T3). -/
-theorem reacquired_scope_functional {s0 s s1 : State} {es : List Ev} (h0 : Start s0) (hr : run s0 es = some s)
-    {sid i : Nat} {x : ScopeS} (hx : scopeOf s sid = some x) (hxc : x.closed = true) (_hxi : x.ident = i)
-    {e : Ev} {t sid' : Nat} (hs : step s e = some s1)
+theorem reacquired_scope_functional {s0 s s1 : State} {es : List Ev} (hsan : ∀ k, san (san k) = san k) (h0 : Start san s0)
+    (hr : run san s0 es = some s)
+    {sid i : Nat} {x : ScopeS} (hx : scopeOf s sid = some x) (hxc : x.closed = true) (_hxi : x.ident = san i)
+    {e : Ev} {t sid' : Nat} (hs : step san s e = some s1)
     (hbefore : pcOf s t ≠ .obtDone i sid') (hafter : pcOf s1 t = .obtDone i sid') :
     sid' ≠ sid ∧
-    ∀ (es2 : List Ev) (s2 : State), run s1 es2 = some s2 →
+    ∀ (es2 : List Ev) (s2 : State), run san s1 es2 = some s2 →
       ∀ y, scopeOf s2 sid' = some y → y.closed = false →
-        lookup s2 i = some sid' ∧
-        ∃ s3, step s2 (.record sid') = some s3 ∧
+        lookup s2 (san i) = some sid' ∧
+        ∃ s3, step san s2 (.record sid') = some s3 ∧
           ({ id := s2.nextToken, scope := sid', pre := true } : Token) ∈ allCells s3 ∧
-          ∀ (es4 : List Ev) (s4 : State), run s3 es4 = some s4 →
+          ∀ (es4 : List Ev) (s4 : State), run san s3 es4 = some s4 →
             ({ id := s2.nextToken, scope := sid', pre := true } : Token)
                 ∈ s4.delivered ++ allCells s4 ++ allPending s4 ++ s4.dropped
             ∧ ({ id := s2.nextToken, scope := sid', pre := true } : Token) ∉ s4.dropped
             ∧ (∀ y4, scopeOf s4 sid' = some y4 → y4.cleared = true →
                 (∀ tk ∈ allPending s4, tk.scope ≠ sid') →
                 ({ id := s2.nextToken, scope := sid', pre := true } : Token) ∈ s4.delivered) := by
-  have h := inv_reach h0 hr
+  have h := inv_reach hsan h0 hr
   have p1 := pres_step h hs
-  obtain ⟨x1, hx1, hx1c, hx1i, _, _⟩ := obtain_returns_live_registered h0 hr hs hbefore hafter
+  obtain ⟨x1, hx1, hx1c, hx1i, _, _⟩ := obtain_returns_live_registered hsan h0 hr hs hbefore hafter
   refine ⟨?_, ?_⟩
   · intro e; subst e
     obtain ⟨x', hx', _, hc'⟩ := p1.2.2 sid' x hx
@@ -193,7 +255,7 @@ theorem reacquired_scope_functional {s0 s s1 : State} {es : List Ev} (h0 : Start
   · intro es2 s2 hr2 y hy hyl
     have p2 := pres_run p1.1 hr2
     have h2 := p2.1
-    have hyi : y.ident = i := by
+    have hyi : y.ident = san i := by
       obtain ⟨y', hy', hi', _⟩ := p2.2.2 sid' x1 hx1
       rw [hy] at hy'; cases hy'
       rw [hi', hx1i]
@@ -203,7 +265,7 @@ theorem reacquired_scope_functional {s0 s s1 : State} {es : List Ev} (h0 : Start
       cases hc : y.cleared with
       | false => rfl
       | true => rw [(h2.static.clearedOk sid' y hy0 hc).1] at hyl; cases hyl
-    have hs3 : step s2 (.record sid') = some
+    have hs3 : step san s2 (.record sid') = some
         { setScope s2 sid' { y with cell := { id := s2.nextToken, scope := sid', pre := true } :: y.cell }
           with nextToken := s2.nextToken + 1 } := by
       simp [step, hy, hncl, hyl]
@@ -238,7 +300,7 @@ theorem reacquired_scope_functional {s0 s s1 : State} {es : List Ev} (h0 : Start
 
 /-- `Close` on a closed scope is a no-op -/
 theorem double_close_noop {s : State} {sid : Nat} {x : ScopeS} (hx : scopeOf s sid = some x)
-    (hc : x.closed = true) : step s (.close sid) = some s := by
+    (hc : x.closed = true) : step san s (.close sid) = some s := by
   simp only [step, hx]
   have : ({ x with closed := true } : ScopeS) = x := by cases x; simp_all
   rw [this]
@@ -260,19 +322,21 @@ theorem double_close_noop {s : State} {sid : Nat} {x : ScopeS} (hx : scopeOf s s
 /-- **the next pass collects**: from any reachable state in which every thread is idle (so nobody holds the
 read lock) and scope `sid` is closed and registered under `k`, the explicit event list `soloPass s t` —
 thread `t` takes the read lock, visits every registered key of the shard (read the closed flag, swap,
-deliver if something was swapped out, and for a closed scope unlock / remove by identity / relock / clear),
-ends the pass — is accepted by the model, and afterwards: everybody is idle again, `sid` is cleared and
-unregistered, and every token that was in its cell is in `delivered`.  (Whether `sid` had already been
+deliver if something was swapped out, and for a closed scope unlock / remove by identity / relock / clear; a scope
+registered under its identity and under raw aliases is visited once per key, each visit removing that key's
+entry), ends the pass — is accepted by the model, and afterwards: everybody is idle again, `sid` is cleared and
+unregistered under EVERY key, and every token that was in its cell is in `delivered`.  (Whether `sid` had already been
 cleared is immaterial, so that hypothesis is not needed.) -/
-theorem next_pass_collects {s0 s : State} {es : List Ev} (h0 : Start s0) (hr : run s0 es = some s)
+theorem next_pass_collects {s0 s : State} {es : List Ev} (hsan : ∀ k, san (san k) = san k) (h0 : Start san s0)
+    (hr : run san s0 es = some s)
     (hidle : ∀ t, pcOf s t = .idle) (hrd : s.readers = []) (t : Nat)
     {k sid : Nat} {x : ScopeS} (hl : lookup s k = some sid) (hx : scopeOf s sid = some x)
     (hc : x.closed = true) :
-    ∃ s', run s (soloPass s t) = some s' ∧ (∀ t', pcOf s' t' = .idle) ∧ s'.readers = []
+    ∃ s', run san s (soloPass san s t) = some s' ∧ (∀ t', pcOf s' t' = .idle) ∧ s'.readers = []
       ∧ (∃ x', scopeOf s' sid = some x' ∧ x'.cleared = true)
       ∧ (∀ k', (k', sid) ∉ s'.reg) ∧ lookup s' k ≠ some sid
       ∧ (∀ tok ∈ x.cell, tok ∈ s'.delivered) := by
-  obtain ⟨s', hrun, hi, hr', hcl, hnr, hd⟩ := soloPass_collects (inv_reach h0 hr) hidle hrd t hl hx hc
+  obtain ⟨s', hrun, hi, hr', hcl, hnr, hd⟩ := soloPass_collects (inv_reach hsan h0 hr) hidle hrd t hl hx hc
   exact ⟨s', hrun, hi, hr', hcl, hnr, fun hl' => hnr k (mem_of_lookup hl'), hd⟩
 
 /-! ## T7 — no deadlock (and no panic: every step of the model is total on reachable states) -/
@@ -282,30 +346,33 @@ such thread has an enabled step.  (The only blocking steps are the write-lock ac
 `readers = []`, and the clear steps, which need the scope's metric lock free: a thread inside a visit can
 always move, then a thread holding the read lock can, and if nobody holds it the write-lockers can.  A pass
 that has no unvisited key left ends: `passEndHint` is always enabled at `passIter`.) -/
-theorem no_deadlock {s0 s : State} {es : List Ev} (h0 : Start s0) (hr : run s0 es = some s)
+theorem no_deadlock {s0 s : State} {es : List Ev} (hsan : ∀ k, san (san k) = san k) (h0 : Start san s0)
+    (hr : run san s0 es = some s)
     (hbusy : ∃ t, pcOf s t ≠ .idle) :
     ∃ t, pcOf s t ≠ .idle ∧
-      ((∃ c, (step s (.step t c)).isSome = true) ∨ (step s (.passEndHint t)).isSome = true) :=
-  (inv_reach h0 hr).progress hbusy
+      ((∃ c, (step san s (.step t c)).isSome = true) ∨ (step san s (.passEndHint t)).isSome = true) :=
+  (inv_reach hsan h0 hr).progress hbusy
 
 /-- the only things a busy thread can be blocked on are the shard's write lock (while readers hold the read
 lock) and the metric lock of a scope somebody is visiting (for the clear) — never a missing scope -/
-theorem blocked_only_on_locks {s0 s : State} {es : List Ev} (h0 : Start s0) (hr : run s0 es = some s)
+theorem blocked_only_on_locks {s0 s : State} {es : List Ev} (hsan : ∀ k, san (san k) = san k) (h0 : Start san s0)
+    (hr : run san s0 es = some s)
     {t c : Nat} (hne : pcOf s t ≠ .idle) (hni : ∀ v, pcOf s t ≠ .passIter v)
-    (hb : step s (.step t c) = none) :
+    (hb : step san s (.step t c) = none) :
     (wantsWrite (pcOf s t) = true ∧ s.readers ≠ [])
     ∨ ∃ sid, visiting s sid = true ∧
         ((∃ v k, pcOf s t = .passClear v k sid) ∨ (∃ i, pcOf s t = .obtClear i sid)
-          ∨ (∃ i, pcOf s t = .obtWantLock i ∧ lookup s i = some sid)) :=
-  (inv_reach h0 hr).blocked_only_on_locks hne hni hb
+          ∨ (∃ i, pcOf s t = .obtWantLock i ∧ lookup s (san i) = some sid)) :=
+  (inv_reach hsan h0 hr).blocked_only_on_locks hne hni hb
 
 /-- **no panic**: no thread and no map entry ever refers to a scope that does not exist (the model's
 `none` results for a missing scope — a nil dereference in Go — are unreachable) -/
-theorem no_dangling_scope {s0 s : State} {es : List Ev} (h0 : Start s0) (hr : run s0 es = some s) :
+theorem no_dangling_scope {s0 s : State} {es : List Ev} (hsan : ∀ k, san (san k) = san k) (h0 : Start san s0)
+    (hr : run san s0 es = some s) :
     (∀ t sid, pcScope (pcOf s t) = some sid → (scopeOf s sid).isSome = true)
     ∧ (∀ k sid, lookup s k = some sid → (scopeOf s sid).isSome = true)
     ∧ (∀ t sid, (t, sid) ∈ s.handedOut → (scopeOf s sid).isSome = true) := by
-  have h := inv_reach h0 hr
+  have h := inv_reach hsan h0 hr
   refine ⟨?_, ?_, ?_⟩
   · intro t sid hs
     obtain ⟨x, hx, _⟩ := h.pcInv t sid hs
@@ -319,14 +386,16 @@ theorem no_dangling_scope {s0 s : State} {es : List Ev} (h0 : Start s0) (hr : ru
     simp [scopeOf, this]
 
 /-- a thread that is inside a visit (holds a scope's metric lock) is never blocked -/
-theorem visitor_never_blocked {s0 s : State} {es : List Ev} (h0 : Start s0) (hr : run s0 es = some s)
-    {t sid : Nat} (hv : visits (pcOf s t) sid = true) : (step s (.step t 0)).isSome = true :=
-  (inv_reach h0 hr).visitor_enabled hv
+theorem visitor_never_blocked {s0 s : State} {es : List Ev} (hsan : ∀ k, san (san k) = san k) (h0 : Start san s0)
+    (hr : run san s0 es = some s)
+    {t sid : Nat} (hv : visits (pcOf s t) sid = true) : (step san s (.step t 0)).isSome = true :=
+  (inv_reach hsan h0 hr).visitor_enabled hv
 
 /-- the read lock is held exactly by the threads whose pc says so -/
-theorem readers_are_the_lock_holders {s0 s : State} {es : List Ev} (h0 : Start s0) (hr : run s0 es = some s)
+theorem readers_are_the_lock_holders {s0 s : State} {es : List Ev} (hsan : ∀ k, san (san k) = san k) (h0 : Start san s0)
+    (hr : run san s0 es = some s)
     (t : Nat) : t ∈ s.readers ↔ holdsR (pcOf s t) = true :=
-  (inv_reach h0 hr).readersOk t
+  (inv_reach hsan h0 hr).readersOk t
 
 /-! ## what the pinned code got wrong: regression witnesses -/
 
@@ -341,14 +410,14 @@ set_option maxRecDepth 100000 in
 /-- pinned removal (delete by key whatever it points to): the fresh live scope 2 of identity 7 loses its
 registration while it is not closed, with a `pre` token in its cell that no pass can ever reach -/
 theorem legacy_remove_by_key_counterexample :
-    (Legacy.run initRoot removalRace).map
+    (Legacy.run id (initRoot id) removalRace).map
         (fun s => (lookup s 7, s.scopes[2]?.map (·.closed), s.scopes[2]?.map (·.cell)))
       = some (none, some false, some [{ id := 0, scope := 2, pre := true }]) := by
   decide
 
 set_option maxRecDepth 100000 in
 /-- the repaired removal (by identity) on the same interleaving: scope 2 stays registered -/
-example : (run initRoot removalRace).map
+example : (run id (initRoot id) removalRace).map
         (fun s => (lookup s 7, s.scopes[2]?.map (·.closed), s.scopes[2]?.map (·.cell)))
       = some (some 2, some false, some [{ id := 0, scope := 2, pre := true }]) := by
   decide
@@ -362,82 +431,185 @@ def flagRace : List Ev :=
 set_option maxRecDepth 100000 in
 /-- pinned pass (closed flag read after the report): a token recorded before Close is cleared away -/
 theorem legacy_closed_read_after_report_counterexample :
-    (Legacy.run initRoot flagRace).map (fun s => s.dropped) = some [{ id := 0, scope := 1, pre := true }] := by
+    (Legacy.run id (initRoot id) flagRace).map (fun s => s.dropped) = some [{ id := 0, scope := 1, pre := true }] := by
   decide
 
 set_option maxRecDepth 100000 in
 /-- the repaired pass on the same interleaving drops nothing: the token waits in the cell for the next pass -/
-example : (run initRoot flagRace).map (fun s => (s.dropped, allCells s))
+example : (run id (initRoot id) flagRace).map (fun s => (s.dropped, allCells s))
     = some ([], [{ id := 0, scope := 1, pre := true }]) := by
   decide
 
 /-! ## non-vacuity -/
 
-/-- obtain (thread 1, identity 7) → scope 1; record; close; a report pass (thread 2) interleaved with a
-re-acquire of identity 7 (thread 3) that finds the closed scope still registered; the re-acquire creates
-scope 2; record on it; a second Close of scope 1 -/
+theorem id_idem : ∀ k : Nat, id (id k) = id k := fun _ => rfl
+
+/-- (identity sanitizer) obtain (thread 1, key 7) → scope 1; record; close; a report pass (thread 2) interleaved
+with a re-acquire of key 7 (thread 3) by the READ-LOCKED path (closed hit under the raw key: report, the two
+removals — of the raw and of the sanitized key, here the same —, clear); before thread 3 takes the write lock,
+thread 1 obtains key 7 again → scope 2, records on it and closes it; thread 3's write-locked lookup then finds the
+closed scope 2 still registered: the WRITE-LOCKED re-acquire path (D4c) reports and drops it and creates scope 3;
+record on it; a second Close of scope 1 -/
 def nvRun : List Ev :=
   [.obtain 1 7, .step 1 0, .step 1 0, .step 1 0, .record 1, .close 1,
    .passBegin 2, .step 2 7, .step 2 0,
    .obtain 3 7, .step 3 0, .step 3 0,
    .step 2 0, .step 2 0, .step 3 0, .step 2 0, .step 3 0, .step 2 0, .step 2 0,
-   .step 3 0, .step 3 0, .step 3 0, .passEndHint 2, .step 3 0, .record 2, .step 3 0, .close 1]
+   .step 3 0, .step 3 0, .passEndHint 2, .step 3 0, .step 3 0, .step 3 0, .step 3 0,
+   .obtain 1 7, .step 1 0, .step 1 0, .step 1 0, .record 2, .close 2,
+   .step 3 0, .record 3, .step 3 0, .close 1]
 
 def nvFinal : State :=
   { scopes := [{ ident := 0, closed := false, cleared := false, cell := [] },
                { ident := 7, closed := true, cleared := true, cell := [] },
-               { ident := 7, closed := false, cleared := false, cell := [{ id := 1, scope := 2, pre := true }] }],
-    reg := [(7, 2), (0, 0)], readers := [],
-    pcs := [(3, .idle), (2, .idle), (1, .idle)],
-    delivered := [{ id := 0, scope := 1, pre := true }], dropped := [], nextToken := 2,
-    handedOut := [(3, 2), (1, 1)] }
+               { ident := 7, closed := true, cleared := true, cell := [] },
+               { ident := 7, closed := false, cleared := false, cell := [{ id := 2, scope := 3, pre := true }] }],
+    reg := [(7, 3), (0, 0)], readers := [],
+    pcs := [(3, .idle), (1, .idle), (2, .idle)],
+    delivered := [{ id := 1, scope := 2, pre := true }, { id := 0, scope := 1, pre := true }], dropped := [],
+    nextToken := 3,
+    handedOut := [(3, 3), (1, 2), (1, 1)] }
 
 set_option maxRecDepth 100000 in
-theorem nvRun_ok : run initRoot nvRun = some nvFinal := by decide
+theorem nvRun_ok : run id (initRoot id) nvRun = some nvFinal := by decide
+
+set_option maxRecDepth 100000 in
+/-- the run passes through both re-acquire paths: after 11 events thread 3 is on the read-locked path (closed hit
+under the raw key), after 19 / 22 events it is in the first / second removal hand-over, after 32 events it is about
+to take the write lock while the closed scope 2 is registered under key 7 -/
+example : ((run id (initRoot id) (nvRun.take 11)).map fun s => pcOf s 3) = some (.obtSwap 7 1)
+    ∧ ((run id (initRoot id) (nvRun.take 17)).map fun s => pcOf s 3) = some (.obtRelock 7 1)
+    ∧ ((run id (initRoot id) (nvRun.take 23)).map fun s => pcOf s 3) = some (.obtRelock2 7 1)
+    ∧ ((run id (initRoot id) (nvRun.take 32)).map fun s => (pcOf s 3, lookup s 7, s.scopes[2]?.map (·.closed)))
+        = some (.obtWantLock 7, some 2, some true) := by
+  decide
 
 /-- T3 applies to the run: scope 1 is cleared, nothing is pending, and its `pre` token 0 was delivered once -/
 example : ({ id := 0, scope := 1, pre := true } : Token) ∈ nvFinal.delivered ∧
     (nvFinal.delivered.map (·.id)).count 0 = 1 :=
-  closed_scope_final_report' (Or.inl rfl) nvRun_ok 1 _ rfl rfl rfl
+  closed_scope_final_report' id_idem (Or.inl rfl) nvRun_ok 1 _ rfl rfl rfl
     { id := 0, scope := 1, pre := true } (by decide) rfl rfl
 
-/-- T4 applies: scope 2 was handed out, is live, and is registered -/
-example : lookup nvFinal 7 = some 2 :=
-  close_harms_no_other (Or.inl rfl) nvRun_ok 2 _ rfl rfl
+/-- T3 applies to scope 2 (collected by the write-locked path) as well -/
+example : ({ id := 1, scope := 2, pre := true } : Token) ∈ nvFinal.delivered ∧
+    (nvFinal.delivered.map (·.id)).count 1 = 1 :=
+  closed_scope_final_report' id_idem (Or.inl rfl) nvRun_ok 2 _ rfl rfl rfl
+    { id := 1, scope := 2, pre := true } (by decide) rfl rfl
 
-/-- the state just before the re-acquire returns (after 23 events) -/
-def nvPre : State := (run initRoot (nvRun.take 23)).get (by decide)
-theorem nvPre_ok : run initRoot (nvRun.take 23) = some nvPre := by simp [nvPre]
+/-- T4 applies: scope 3 was handed out, is live, and is registered -/
+example : lookup nvFinal 7 = some 3 :=
+  close_harms_no_other id_idem (Or.inl rfl) nvRun_ok 3 _ rfl rfl
+
+/-- the state just before the re-acquire returns (after 32 events) -/
+def nvPre : State := (run id (initRoot id) (nvRun.take 32)).get (by decide)
+theorem nvPre_ok : run id (initRoot id) (nvRun.take 32) = some nvPre := by simp [nvPre]
 
 set_option maxRecDepth 100000 in
-/-- T5 applies: scope 1 of identity 7 is closed, and thread 3's next step returns scope 2 for identity 7 -/
-example : ∃ s1, step nvPre (.step 3 0) = some s1 ∧ 2 ≠ 1 :=
-  ⟨(step nvPre (.step 3 0)).get (by decide), by simp,
-    (reacquired_scope_functional (Or.inl rfl) nvPre_ok (sid := 1) (i := 7)
-      (x := { ident := 7, closed := true, cleared := true, cell := [] }) (by decide) rfl rfl
-      (e := .step 3 0) (t := 3) (sid' := 2) (s1 := (step nvPre (.step 3 0)).get (by decide)) (by simp)
+/-- T5 applies: scope 2 of identity 7 is closed, and thread 3's next step returns scope 3 for key 7 -/
+example : ∃ s1, step id nvPre (.step 3 0) = some s1 ∧ 3 ≠ 2 :=
+  ⟨(step id nvPre (.step 3 0)).get (by decide), by simp,
+    (reacquired_scope_functional id_idem (Or.inl rfl) nvPre_ok (sid := 2) (i := 7)
+      (x := { ident := 7, closed := true, cleared := false, cell := [{ id := 1, scope := 2, pre := true }] })
+      (by decide) rfl rfl
+      (e := .step 3 0) (t := 3) (sid' := 3) (s1 := (step id nvPre (.step 3 0)).get (by decide)) (by simp)
       (by decide) (by decide)).1⟩
 
 set_option maxRecDepth 100000 in
 /-- T7's hypothesis holds in the middle of the run (after 14 events both the pass and the re-acquire are in
 flight, thread 2 waits for the write lock while thread 3 holds the read lock) -/
-example : ∃ t, pcOf ((run initRoot (nvRun.take 14)).get (by decide)) t ≠ .idle := ⟨2, by decide⟩
+example : ∃ t, pcOf ((run id (initRoot id) (nvRun.take 14)).get (by decide)) t ≠ .idle := ⟨2, by decide⟩
 
 set_option maxRecDepth 100000 in
 /-- T6 applies after the first six events (scope 1 closed, still registered, everybody idle), and the
 explicit pass it provides is the expected one -/
-example : soloPass ((run initRoot (nvRun.take 6)).get (by decide)) 2
+example : soloPass id ((run id (initRoot id) (nvRun.take 6)).get (by decide)) 2
     = [.passBegin 2, .step 2 7, .step 2 0, .step 2 0, .step 2 0, .step 2 0, .step 2 0, .step 2 0,
        .step 2 0, .step 2 0, .step 2 0, .passEndHint 2] := by decide
 
 set_option maxRecDepth 100000 in
-example : ∃ s', run ((run initRoot (nvRun.take 6)).get (by decide))
-      (soloPass ((run initRoot (nvRun.take 6)).get (by decide)) 2) = some s'
+example : ∃ s', run id ((run id (initRoot id) (nvRun.take 6)).get (by decide))
+      (soloPass id ((run id (initRoot id) (nvRun.take 6)).get (by decide)) 2) = some s'
     ∧ ({ id := 0, scope := 1, pre := true } : Token) ∈ s'.delivered := by
-  obtain ⟨s', h1, _, _, _, _, _, h2⟩ := next_pass_collects (s := (run initRoot (nvRun.take 6)).get (by decide))
-    (es := nvRun.take 6) (Or.inl rfl) (by simp) (all_idle_of_pcs (by decide)) (by decide) 2 (k := 7) (sid := 1)
+  obtain ⟨s', h1, _, _, _, _, _, h2⟩ := next_pass_collects (s := (run id (initRoot id) (nvRun.take 6)).get (by decide))
+    (es := nvRun.take 6) id_idem (Or.inl rfl) (by simp) (all_idle_of_pcs (by decide)) (by decide) 2 (k := 7) (sid := 1)
     (x := { ident := 7, closed := true, cleared := false, cell := [{ id := 0, scope := 1, pre := true }] })
     (by decide) (by decide) rfl
   exact ⟨s', h1, h2 _ (List.mem_cons_self ..)⟩
+
+/-! ## sanitizer aliasing: two spellings of one identity -/
+
+/-- a non-identity sanitizer: the raw keys 1 and 2 are two spellings of the identity 0 -/
+def sanEx : Nat → Nat := fun k => if k = 1 ∨ k = 2 then 0 else k
+
+theorem sanEx_idem : ∀ k, sanEx (sanEx k) = sanEx k := by
+  intro k
+  by_cases h : k = 1 ∨ k = 2 <;> simp [sanEx, h]
+
+/-- thread 1 creates a scope through spelling 1 (scope 0 of identity 0, registered under 0 and under the alias 1),
+records a token on it and closes it; thread 2 asks for spelling 2: miss under the raw key, then the write-locked
+lookup of the sanitized key 0 finds the closed scope (D4c) -/
+def aliasWriteLocked : List Ev :=
+  [.obtain 1 1, .step 1 0, .step 1 0, .step 1 0, .record 0, .close 0,
+   .obtain 2 2, .step 2 0, .step 2 0]
+
+set_option maxRecDepth 100000 in
+/-- re-acquire through ANOTHER spelling by the write-locked path: the token recorded through spelling 1 before the
+Close is delivered exactly once (nothing dropped, nothing left in a cell), thread 2 gets the fresh scope 1 of
+identity 0, registered under 0 and under the alias 2; the stale alias `1 ↦ 0` of the cleared scope stays until a
+pass or a `Subscope(1)` collects it -/
+example : (run sanEx init aliasWriteLocked).map (fun s => (s.delivered, s.dropped, allCells s))
+      = some ([{ id := 0, scope := 0, pre := true }], [], [])
+    ∧ (run sanEx init aliasWriteLocked).map
+        (fun s => (s.reg, pcOf s 2, s.scopes.map fun x => (x.ident, x.closed, x.cleared)))
+      = some ([(2, 1), (0, 1), (1, 0)], .obtDone 2 1, [(0, true, true), (0, false, false)]) :=
+  ⟨by decide, by decide⟩
+
+set_option maxRecDepth 100000 in
+/-- … and just before thread 2's last step the closed scope was still registered under the sanitized key, so that
+step is the closed hit of the write-locked path -/
+example : (run sanEx init (aliasWriteLocked.take 8)).map (fun s => (pcOf s 2, lookup s 2, lookup s (sanEx 2)))
+      = some (.obtWantLock 2, none, some 0)
+    ∧ (run sanEx init (aliasWriteLocked.take 8)).map (fun s => (s.scopes[0]?.map (·.closed), s.delivered))
+      = some (some true, []) := by
+  decide
+
+/-- the same start, but thread 2 asks for the SAME spelling 1: closed hit under the raw key, the read-locked path
+(report, remove the raw key 1, remove the sanitized key 0, clear), then the write-locked creation -/
+def aliasReadLocked : List Ev :=
+  [.obtain 1 1, .step 1 0, .step 1 0, .step 1 0, .record 0, .close 0,
+   .obtain 2 1, .step 2 0, .step 2 0, .step 2 0, .step 2 0, .step 2 0, .step 2 0, .step 2 0, .step 2 0,
+   .step 2 0, .step 2 0, .step 2 0, .step 2 0]
+
+set_option maxRecDepth 100000 in
+/-- re-acquire through the same spelling by the read-locked path: the token is delivered exactly once, both
+entries of the closed scope are gone, thread 2 gets the fresh scope 1 registered under 0 and under 1 -/
+example : (run sanEx init aliasReadLocked).map (fun s => (s.delivered, s.dropped, allCells s))
+      = some ([{ id := 0, scope := 0, pre := true }], [], [])
+    ∧ (run sanEx init aliasReadLocked).map
+        (fun s => (s.reg, pcOf s 2, s.scopes.map fun x => (x.ident, x.closed, x.cleared)))
+      = some ([(1, 1), (0, 1)], .obtDone 1 1, [(0, true, true), (0, false, false)]) :=
+  ⟨by decide, by decide⟩
+
+set_option maxRecDepth 100000 in
+/-- the two removals of the read-locked path remove one entry each: after 12 events the raw key is gone and the
+sanitized key still registered, after 15 events both are gone -/
+example : ((run sanEx init (aliasReadLocked.take 12)).map fun s => (pcOf s 2, s.reg)) = some (.obtRelock 1 0, [(0, 0)])
+    ∧ ((run sanEx init (aliasReadLocked.take 15)).map fun s => (pcOf s 2, s.reg)) = some (.obtRelock2 1 0, []) := by
+  decide
+
+/-- two spellings, one live scope: thread 1 obtains spelling 1, thread 2 obtains spelling 2 (live hit under the
+sanitized key, alias added) -/
+def aliasLive : List Ev := [.obtain 1 1, .step 1 0, .step 1 0, .obtain 2 2, .step 2 0, .step 2 0]
+
+set_option maxRecDepth 100000 in
+/-- `obtain_same_identity_same_live_scope` applies (its hypotheses are satisfiable with a non-identity sanitizer):
+both threads are at `obtDone`, with different spellings, holding the same live scope -/
+example : ∃ s, run sanEx init aliasLive = some s ∧ pcOf s 1 = .obtDone 1 0 ∧ pcOf s 2 = .obtDone 2 0
+    ∧ s.reg = [(2, 0), (1, 0), (0, 0)] ∧ (0 : Nat) = 0 := by
+  refine ⟨(run sanEx init aliasLive).get (by decide), by simp, by decide, by decide, by decide, ?_⟩
+  exact obtain_same_identity_same_live_scope (s := (run sanEx init aliasLive).get (by decide)) (es := aliasLive)
+    sanEx_idem (Or.inr rfl) (by simp) (t1 := 1) (t2 := 2) (r1 := 1) (r2 := 2) (by decide) (by decide) (by decide)
+    (x1 := { ident := 0, closed := false, cleared := false, cell := [] })
+    (x2 := { ident := 0, closed := false, cleared := false, cell := [] }) (by decide) rfl (by decide) rfl
 
 end Tally.Props.C07
